@@ -549,6 +549,8 @@ pub fn verif_tokens(
     } else {
         for tok in Tokenizer::new(input) {
             match tok {
+                // The tokenizer keeps yielding EOF once the input is exhausted
+                Ok(ref tok) if tok.value == Token::EOF => break,
                 Ok(tok) => out.push((
                     format!("{:?}", tok.value),
                     tok.span.start().absolute.to_usize() as u32,
